@@ -10,6 +10,7 @@ from __future__ import annotations
 
 import ast
 
+from .. import defuse as D
 from .. import effects as E
 from ..index import AnalysisError, call_name, norm, params_of, walk_no_nested
 from ..report import key
@@ -220,8 +221,202 @@ def r20_3(chk):
                             chk.advisory("R20.3", key(c.module, f"{c.name}.{mname}", f"self.{call.func.attr}() [{ci.name}]"), c.module.loc(call), "self-call that resolves nowhere in the MRO (package-wide sweep)")
 
 
+def _guards(fn, target):
+    """tests of the `if` statements (with the branch taken) that enclose `target` in fn"""
+    out = []
+
+    def rec(stmts, acc):
+        for st in stmts:
+            if st is target or any(n is target for n in ast.walk(st) if not isinstance(st, (ast.If, ast.For, ast.While, ast.With, ast.Try))):
+                out.extend(acc)
+                return True
+            if isinstance(st, ast.If):
+                if rec(st.body, acc + [(norm(st.test), True)]) or rec(st.orelse, acc + [(norm(st.test), False)]):
+                    return True
+                if any(n is target for n in ast.walk(st.test)):
+                    out.extend(acc)
+                    return True
+            elif isinstance(st, (ast.For, ast.While)):
+                if rec(st.body, acc) or rec(st.orelse, acc):
+                    return True
+            elif isinstance(st, ast.With):
+                if rec(st.body, acc):
+                    return True
+            elif isinstance(st, ast.Try):
+                if rec(st.body, acc) or rec(st.orelse, acc) or rec(st.finalbody, acc) or any(rec(h.body, acc) for h in st.handlers):
+                    return True
+        return False
+
+    rec(fn.body, [])
+    return out
+
+
+def r20_4(chk):
+    chk.rule("R20.4", "the delimited reader keeps every record: in load_delimited each row the csv reader yields is appended unchanged (no filtering `continue`, no conditional or transformed append; the only early exit is the `limit` break after the append); afterwards the row list loses only the header (if header) and the legend (if with_legend); load_table drops rows only under skip_inconsistent")
+    pm = chk.repo.module("parse/table.py")
+    ld = pm.func("load_delimited")
+    readers = {t.id for tg, v, _ in D.assignments(ld) if isinstance(v, ast.Call) and norm(v.func) == "csv.reader" for t in tg if isinstance(t, ast.Name)}
+    if not readers:
+        raise AnalysisError("load_delimited: no name bound to csv.reader(...)")
+    loops = [f for f in walk_no_nested(ld) if isinstance(f, ast.For) and isinstance(f.iter, ast.Name) and f.iter.id in readers]
+    comps = [c for c in walk_no_nested(ld) if isinstance(c, (ast.ListComp, ast.GeneratorExp)) and any(isinstance(g.iter, ast.Name) and g.iter.id in readers for g in c.generators)]
+    whole = [c for c in walk_no_nested(ld) if isinstance(c, ast.Call) and call_name(c) in ("list", "tuple") and c.args and isinstance(c.args[0], ast.Name) and c.args[0].id in readers]
+    if not (loops or comps or whole):
+        raise AnalysisError("load_delimited: cannot find how the rows are collected from the csv reader")
+    rowlists = set()
+    for lp in loops:
+        var = lp.target.id if isinstance(lp.target, ast.Name) else None
+        k = key(pm, "load_delimited", "every row appended")
+        appends = [(i, st) for i, st in enumerate(lp.body) if isinstance(st, ast.Expr) and isinstance(st.value, ast.Call) and isinstance(st.value.func, ast.Attribute) and st.value.func.attr == "append" and len(st.value.args) == 1 and isinstance(st.value.args[0], ast.Name) and st.value.args[0].id == var]
+        if not appends:
+            chk.violation("R20.4", k, pm.loc(lp), f"the loop over the csv reader has no unconditional `<rows>.append({var})` at the top level of its body: rows are filtered or transformed while being read, so a written row (an all-empty one, say) does not come back")
+            continue
+        i, st = appends[0]
+        rowlists.add(norm(st.value.func.value))
+        early = [n for b in lp.body[:i] for n in ast.walk(b) if isinstance(n, (ast.Continue, ast.Break, ast.Return))]
+        rebinding = [b for b in lp.body[:i] for tg, v, _ in D.assignments(ast.Module(body=[b], type_ignores=[])) for t in tg if isinstance(t, ast.Name) and t.id == var]
+        bad_line = early[0].lineno if early else (rebinding[0].lineno if rebinding else 0)
+        chk.decide(not early and not rebinding, "R20.4", k, pm.loc(st), f"`{norm(st.value)}` is the first effect of every iteration", f"before `{norm(st.value)}` the loop body can skip or rewrite the row (line {bad_line}): a record of the file is dropped or altered on reading -- e.g. a row whose cells are all empty fails `any(row)`")
+        # exits after the append are governed by the limit option only
+        for b in lp.body[i + 1 :]:
+            for n in ast.walk(b):
+                if isinstance(n, (ast.Break, ast.Return)):
+                    g = [t for t, _ in _guards(ast.Module(body=lp.body, type_ignores=[]), n)]
+                    chk.decide(any("limit" in t for t in g), "R20.4", key(pm, "load_delimited", "early exit only by limit"), pm.loc(n), f"break under {g}", f"the reading loop stops early under {g or 'no condition'}, not under the limit option")
+    for c in comps:
+        gen = c.generators[0]
+        same = isinstance(c.elt, ast.Name) and isinstance(gen.target, ast.Name) and c.elt.id == gen.target.id
+        chk.decide(same and not gen.ifs and len(c.generators) == 1, "R20.4", key(pm, "load_delimited", "every row appended"), pm.loc(c), "rows collected by an unfiltered comprehension", f"`{norm(c)}` filters or rewrites the rows while reading")
+    for c in whole:
+        chk.ok("R20.4", key(pm, "load_delimited", "every row appended"), pm.loc(c), "rows collected by list(reader)")
+    for tg, v, st in D.assignments(ld):
+        for t in tg:
+            if isinstance(v, (ast.ListComp, ast.Call)) and any(isinstance(g, ast.comprehension) and g.iter and isinstance(g.iter, ast.Name) and g.iter.id in readers for g in ast.walk(v)) or (isinstance(v, ast.Call) and v in whole):
+                rowlists.add(norm(t))
+    if not rowlists:
+        raise AnalysisError("load_delimited: row list not identified")
+    # what happens to the row list after collection
+    allowed = {"pop(0)": "header", "pop(-1)": "with_legend"}
+    n_mut = 0
+    for c in walk_no_nested(ld):
+        if isinstance(c, ast.Call) and isinstance(c.func, ast.Attribute) and norm(c.func.value) in rowlists and c.func.attr in ("pop", "remove", "clear", "sort", "reverse", "insert", "extend", "__delitem__"):
+            sig = f"{c.func.attr}({', '.join(norm(a) for a in c.args)})"
+            opt = allowed.get(sig)
+            g = [t for t, br in _guards(ld, c) if br]
+            # conditional expressions `x.pop(0) if header else None`
+            for n in ast.walk(ld):
+                if isinstance(n, ast.IfExp) and any(m is c for m in ast.walk(n.body)):
+                    g.append(norm(n.test))
+            n_mut += 1
+            chk.decide(opt is not None and opt in g, "R20.4", key(pm, "load_delimited", f"rows.{sig}"), pm.loc(c), f"removes the {opt} line only when `{opt}` is set", f"`{norm(c)}` under {g or 'no condition'} removes a record that was written as data")
+    for tg, v, st in D.assignments(ld):
+        for t in tg:
+            if norm(t) in rowlists and not (isinstance(v, (ast.List,)) and not v.elts) and not any(isinstance(g, ast.comprehension) and isinstance(g.iter, ast.Name) and g.iter.id in readers for g in ast.walk(v)) and not (isinstance(v, ast.Call) and v in whole):
+                chk.violation("R20.4", key(pm, "load_delimited", f"rows rebound: {norm(v)[:60]}"), pm.loc(st), f"the row list is rebuilt by `{norm(v)[:80]}` after reading: records can be dropped or rewritten")
+    # load_table
+    im = chk.repo.module("__init__.py")
+    lt = im.func("load_table")
+    unpack = [(tg, v, st) for tg, v, st in D.assignments(lt) if isinstance(v, ast.Call) and call_name(v) == "load_delimited"]
+    if not unpack or not isinstance(unpack[0][0][0], ast.Tuple) or len(unpack[0][0][0].elts) < 2:
+        raise AnalysisError("load_table: `header, rows, ... = load_delimited(...)` not found")
+    rows_name = norm(unpack[0][0][0].elts[1])
+    for tg, v, st in D.assignments(lt):
+        for t in tg:
+            if norm(t) == rows_name:
+                g = [tst for tst, br in _guards(lt, st) if br]
+                chk.decide("skip_inconsistent" in g, "R20.4", key(im, "load_table", f"rows rebound: {norm(v)[:60]}"), im.loc(st), "rows are filtered only when the caller asks for skip_inconsistent", f"`{rows_name} = {norm(v)[:80]}` under {g or 'no condition'}: rows of the file are dropped without the caller asking for it")
+    # the rows must reach the column builder whole
+    uses = [n for n in walk_no_nested(lt) if isinstance(n, ast.Call) and call_name(n) == "zip" and any(isinstance(a, ast.Starred) and norm(a.value) == rows_name for a in n.args)]
+    chk.decide(bool(uses), "R20.4", key(im, "load_table", "columns from all rows"), im.loc(uses[0]) if uses else im.loc(lt), f"columns are built by zip(header, *{rows_name})", f"the columns are no longer built from `*{rows_name}` (a slice or filter of the rows loses records)")
+    chk.floor("R20.4", 5, "append, two pops, skip_inconsistent filter, zip")
+
+
+ORDERING = {"unique", "sort", "argsort", "sorted", "lexsort", "searchsorted", "intersect1d", "union1d", "setdiff1d", "setxor1d", "in1d", "min", "max", "argmin", "argmax", "bisect", "bisect_left", "bisect_right", "groupby"}
+EQUALITY_OPS = ["distinct_values", "count_unique", "count", "joined", "inner_join", "cross_join", "filtered", "filtered_by_column", "appended", "transposed", "get_columns", "with_new_column", "with_new_header", "get_row_indices", "to_list", "to_dict"]
+
+
+def _cell_data_names(fn):
+    """local names that (may) hold cell data of the receiver: derived from self.columns[...],
+    self[...], <x>.array, <x>.tolist()/to_list(), self.columns.take_columns(...)"""
+
+    def is_cell(n):
+        if isinstance(n, ast.Subscript) and norm(n.value) in ("self", "self.columns", "self.array"):
+            return True
+        if isinstance(n, ast.Attribute) and n.attr in ("array",) and "self" in D.names_in(n):
+            return True
+        if isinstance(n, ast.Call) and isinstance(n.func, ast.Attribute) and n.func.attr in ("tolist", "to_list", "take_columns", "take", "iter_rows") and "self" in D.names_in(n):
+            return True
+        return False
+
+    derived = set()
+    changed = True
+    binds = list(D.assignments(fn))
+    while changed:
+        changed = False
+        for tg, v, _ in binds:
+            if any(is_cell(n) for n in ast.walk(v)) or (D.names_in(v) & derived):
+                for t in tg:
+                    for nm in ast.walk(t):
+                        if isinstance(nm, ast.Name) and nm.id not in derived:
+                            derived.add(nm.id)
+                            changed = True
+    return derived, is_cell
+
+
+def _ordering_uses(fn):
+    derived, is_cell = _cell_data_names(fn)
+    hits = []
+    for c in walk_no_nested(fn):
+        if not isinstance(c, ast.Call):
+            continue
+        nm = (call_name(c) or "").split(".")[-1]
+        if nm not in ORDERING:
+            continue
+        operands = list(c.args) + [k.value for k in c.keywords if k.arg not in ("key",)]
+        if isinstance(c.func, ast.Attribute) and not norm(c.func.value) in ("numpy", "np", "bisect", "itertools"):
+            operands.append(c.func.value)
+        if any(any(is_cell(n) for n in ast.walk(o)) or (D.names_in(o) & derived) for o in operands):
+            hits.append(c)
+    return hits
+
+
+def r20_5(chk):
+    chk.rule("R20.5", "cells form an equality domain only (a column of mixed types or with missing values is an object array whose elements cannot be ordered): the equality-based operations (distinct values, counting, joins, filtering, appending, transposing, column selection) apply no ordering primitive (numpy.unique/sort/argsort, sorted, min/max, ...) to cell data of the table -- on a plain list of rows these operations need == and hash only")
+    m = chk.repo.module(TABLE)
+    ci = m.cls("Table")
+    probe = ci.resolve("sorted")
+    if probe is None or not _ordering_uses(probe[1]):
+        raise AnalysisError("R20.5 probe: the matcher no longer recognises the ordering primitive in Table.sorted")
+    seen = set()
+    work = []
+    for name in EQUALITY_OPS:
+        r = ci.resolve(name)
+        if r is None or not isinstance(r[1], ast.FunctionDef):
+            continue
+        work.append((name, r[1], name))
+    while work:
+        name, fn, root = work.pop()
+        if id(fn) in seen:
+            continue
+        seen.add(id(fn))
+        hits = _ordering_uses(fn)
+        q = f"Table.{name}"
+        for h in hits:
+            chk.violation("R20.5", key(m, q, f"ordering primitive {norm(h)[:60]}"), m.loc(h), f"`{norm(h)[:90]}` orders cell data" + (f" (reached from {root}())" if root != name else "") + ": for a column holding None next to text, or text next to numbers, the comparison raises TypeError (or orders arbitrarily) where a list of row tuples answers with == alone")
+        if not hits:
+            chk.ok("R20.5", key(m, q, "equality only"), m.loc(fn), "no ordering primitive applied to cell data")
+        for c in walk_no_nested(fn):
+            if isinstance(c, ast.Call) and isinstance(c.func, ast.Attribute) and norm(c.func.value) == "self" and c.func.attr not in ("sorted",):
+                r = ci.resolve(c.func.attr)
+                if r is not None and isinstance(r[1], ast.FunctionDef) and not c.func.attr.startswith("_repr") and c.func.attr not in ("__repr__", "__str__", "to_string", "_formatted", "_formatted_by_col"):
+                    work.append((c.func.attr, r[1], root))
+    chk.floor("R20.5", 14, "equality-based operations of Table")
+
+
 def run(chk):
     r20_1(chk)
     r20_2(chk)
     r20_3(chk)
+    r20_4(chk)
+    r20_5(chk)
     chk.assume("csv.reader(dialect='excel') semantics: minimal quoting, doubled quotes, quoted fields may contain separators and line breaks")
